@@ -52,6 +52,39 @@ func (p *Program) encodeUnit(c *Contract) *UnitResult {
 		args = append(args, n)
 		f.params[prm.Name()] = CVal{S: n, T: prm.Type()}
 		shows = append(shows, ShowVar{Name: prm.Name(), Term: n, Type: prm.Type()})
+		// scalar fields of objects reachable from the parameter (for counterexample replay)
+		var objTypes []types.Type
+		ref := n
+		if isIface(prm.Type()) {
+			objTypes = e.dispatchTypes()
+			ref = "(i_ref " + n + ")"
+		} else if isPointerTo(prm.Type()) {
+			objTypes = []types.Type{prm.Type()}
+		}
+		for _, ot := range objTypes {
+			pt, ok := ot.Underlying().(*types.Pointer)
+			if !ok {
+				continue
+			}
+			st, ok := pt.Elem().Underlying().(*types.Struct)
+			if !ok {
+				continue
+			}
+			for i := 0; i < st.NumFields(); i++ {
+				ft := st.Field(i).Type()
+				if !(isInteger(ft) || isFloat(ft) || isString(ft) || isBool(ft)) {
+					continue
+				}
+				fp := e.fieldPlace(ref, pt.Elem(), i)
+				nm := fmt.Sprintf("|show.%s.%s|", prm.Name(), fp.comp)
+				if e.declared[nm] {
+					continue
+				}
+				e.declared[nm] = true
+				e.emit(fmt.Sprintf("(define-fun %s () %s %s)", nm, e.sortOf(ft), e.load(st0, fp)))
+				shows = append(shows, ShowVar{Name: nm, Term: nm, Type: ft})
+			}
+		}
 	}
 	// global invariants of the unit's package and of the packages it imports
 	errs := []string{}
@@ -72,6 +105,11 @@ func (p *Program) encodeUnit(c *Contract) *UnitResult {
 	f.encodeBody(args, "true", st0.clone())
 	reach, results, stF, ok := f.mergeReturns()
 	if ok {
+		for i := range results {
+			nm := fmt.Sprintf("|result%d|", i)
+			e.emit(fmt.Sprintf("(define-fun %s () %s %s)", nm, e.sortOf(fn.Signature.Results().At(i).Type()), results[i]))
+			results[i] = nm
+		}
 		cov2 := e.oblige("cover", c.Key()+"#cover[return]", "return", reach, "false", c.Pos)
 		cov2.MustSat = true
 		vars := map[string]CVal{}
